@@ -37,7 +37,8 @@ AuxInit == [cmd     |-> EmptyFn,   \* proc |-> name of the command it is running
             plen    |-> EmptyFn,   \* pack |-> (blob |-> stored length)
             psize   |-> EmptyFn,   \* pack |-> file size
             reader  |-> EmptyFn,   \* proc |-> TRUE while it runs a reading command (C14 order rule applies)
-            sawSnap |-> EmptyFn]   \* proc |-> it has listed / loaded snapshots in this command
+            sawSnap |-> EmptyFn,   \* proc |-> it has listed / loaded snapshots in this command
+            packsize |-> 0]        \* target pack size of the repository (from the Reset line, 0 = unknown)
 
 E == Trace[l]
 Is(names) == l <= Len(Trace) /\ E.ev \in names
@@ -66,7 +67,7 @@ TReset ==
   /\ Is({"Reset"}) /\ Consume
   /\ packs' = EmptyFn /\ idx' = EmptyFn /\ snaps' = EmptyFn /\ kids' = EmptyFn
   /\ keys' = {} /\ cfg' = 0
-  /\ aux' = AuxInit
+  /\ aux' = [AuxInit EXCEPT !.packsize = IF "packsize" \in DOMAIN E THEN E.packsize ELSE 0]
 
 TTree ==
   /\ Is({"Tree"}) /\ Consume
@@ -245,6 +246,35 @@ NonceFresh == (ev.ev \in SaveEvents /\ "nonce_ok" \in DOMAIN ev) => ev.nonce_ok
 NoLeak     == (ev.ev \in SaveEvents) => ~ev.leak
 \* C44: packs never mix tree and data blobs
 PackUnmixed == ev.ev = "SavePack" => ~ev.mixed
+\* C44: a pack receives no further blob once it has reached the target pack size: the
+\* blobs before the last one (in offset order = order of adding) sum up to less than it
+\* (the Reset line of a trace names the repository's pack size, 0 = unknown)
+PackSizeOf == aux.packsize
+SumSeq(s, n) == LET RECURSIVE SS(_)
+                    SS(k) == IF k = 0 THEN 0 ELSE s[k] + SS(k - 1)
+                IN SS(n)
+PackNotOverfilled ==
+  (ev.ev = "SavePack" /\ PackSizeOf > 0 /\ Len(ev.lens) >= 2)
+     => SumSeq(ev.lens, Len(ev.lens) - 1) < PackSizeOf
+
+\* C44 / C16: at the end of an upload session (a Cmd end line with "accepted")
+\*  - every accepted blob is in exactly one pack of the repository, and is
+\*    indexed by the index files now present (packs and index persisted before the end);
+\*  - no blob that the index files present at the start already listed, and no blob twice,
+\*    was uploaded (unless the session stored duplicates on purpose)
+NewPacks(p) == DOMAIN packs \ DOMAIN aux.pre[p].packs
+SessionComplete ==
+  (ev.ev = "Cmd" /\ ev.phase = "end" /\ "accepted" \in DOMAIN ev) =>
+     \A b \in Rng(ev.accepted) :
+        /\ Indexed(b)
+        /\ (~ev.dups) => Cardinality({p \in DOMAIN packs : b \in packs[p]}) = 1
+NoDuplicateUpload ==
+  (ev.ev = "Cmd" /\ ev.phase = "end" /\ "dups" \in DOMAIN ev /\ ~ev.dups) =>
+     LET new == NewPacks(ev.proc)
+         old == BlobsOf({e \in EntriesOf(aux.pre[ev.proc].idx) : SoundEntry(e, aux.pre[ev.proc].packs)})
+     IN /\ \A p1, p2 \in new : p1 # p2 => packs[p1] \cap packs[p2] = {}
+        /\ \A p \in new : packs[p] \cap old = {}
+
 \* files written by restic are readable by restic's own decoder
 Readable   == (ev.ev \in SaveEvents /\ "readable" \in DOMAIN ev) => ev.readable
 
